@@ -68,7 +68,7 @@ TEXT["C03"] = {
              "multiplies Fourier factors (so merging equal-symptom mechanisms in any order preserves the distribution); a gauge direction annihilates exactly the characters that see it. "
              "Correspondence: the model returned for a circuit is compared with the circuit's noise pushed forward fault by fault in Lean — Fourier coefficients in exact rational arithmetic plus support "
              "equality — and rejections (non-deterministic detectors/observables, disjoint channels without approximation, over-mixing) must match the Lean decision.",
-    "note": COMMON_NOTE + "Equality of distributions is tested on a finite set of characters (all singletons, all pairs for <= 10 symptoms, 24 pseudo-random) — a proof of the oracle's laws, a test of each instance.",
+    "note": COMMON_NOTE + "Equality of distributions is decided exactly when there are at most 8 detectors+observables (all 2^n Fourier coefficients are compared; by Fourier.same_distribution_of_same_bias agreement means equal distributions) and tested on a finite set of characters beyond that (all singletons, all pairs for <= 10 symptoms, 24 pseudo-random).",
     "technique": "Lean 4 theorems (ring identities by grind, decide over regenerated tables) + exact-rational distribution oracle correspondence",
 }
 TEXT["C06"] = {
